@@ -58,6 +58,8 @@ pub fn exec(case: &Value) -> Vec<Value> {
 pub fn gen(seed: u64, n: usize) -> Vec<Value> {
     let mut rng = ChaCha8Rng::seed_from_u64(seed);
     let pool = ["a", "b", " ", "ä", "ß", "€", "字", "😀", "🇩🇪", "e\u{0301}", "👨\u{200D}👩\u{200D}👧", "\r\n", "\t"];
+    // one text in thirty: a short text with a cluster of 261 bytes (wider than a byte can count)
+    let with_giant = ["a", "ä", giant_cluster(), " "];
     (0..n)
         .map(|_| {
             let len = rng.random_range(1..=60);
@@ -74,6 +76,11 @@ pub fn gen(seed: u64, n: usize) -> Vec<Value> {
                 (0..len).map(|_| pool[rng.random_range(0..pool.len())]).collect()
             };
             let kind = ["char", "byte", "byte", "full"][rng.random_range(0..4)];
+            if rng.random_bool(1.0 / 30.0) {
+                let s: String = (0..rng.random_range(1..=6)).map(|_| with_giant[rng.random_range(0..with_giant.len())]).collect();
+                let (max, ctx) = [(100usize, 10usize), (300, 10), (600, 100), (10, 2)][rng.random_range(0..4)];
+                return json!({"s": s, "kind": kind, "g": true, "max": max, "ctx": ctx});
+            }
             let ctx = rng.random_range(0..=8usize);
             let max = if rng.random_bool(0.15) { rng.random_range(0..=2 * ctx + 1) } else { 2 * ctx + rng.random_range(1..=40usize) };
             json!({"s": s, "kind": kind, "g": rng.random_bool(0.5), "max": max, "ctx": ctx})
